@@ -403,6 +403,11 @@ def run_all(program, rep, roles_wanted=None):
     results = {}
     for r in missing:
         if roles_wanted is None or r in roles_wanted:
+            if r not in ('Language', 'Script', 'Region', 'Variant'):
+                # a private helper of an extension module: when no function has the expected shape any more (merged, inlined, different return type)
+                # there is nothing to analyse on its own - what the parsers and setters accept is decided on their own paths (PARSE-TABLE, TS-EFFECT)
+                rep.notes.append('no stand-alone helper validator for role %s (decided in context by the parser tables and the setter effects)' % r)
+                continue
             rep.ob('validator:%s:anchor' % r, 'ANCHOR', '-', '-', 'validator for role %s found' % r, False,
                    'ANCHOR-MISSING: no function with the expected type and signature for role %s' % r)
     class _Quiet:
